@@ -182,10 +182,68 @@ def setup(concepts, spec):
 
 
 def cases(tier, seed, spec):
+    yield from gen.biglat(tier)
     yield from gen.ctx_stream(tier, seed)
 
 
+def run_biglat(concepts, case, spec):
+    """Tens of thousands of concepts: the shadow's O(n^2) order is unaffordable, so the traversals
+    are judged by an O(n) definitional filter over the member list (extent inclusion)."""
+    rng = common.rng_for(case, spec)
+    ctx = common.build_or_skip(concepts, case)
+    if ctx is None:
+        return
+    sh = attach.shadow_of(ctx)
+    lat = common.get_lattice(ctx)
+    if lat is RAISED:
+        COL.violation('driver', 'biglat:construction-raised', 'a lattice', 'exception')
+        return
+    members = list(lat)
+    masks = [sh.omask(c.extent) for c in members]
+    COL.count('biglat_cases')
+    COL.sample({'fam': case['fam'], 'n_concepts': len(members)})
+    if len(set(masks)) != len(masks) or len(masks) != (1 << sh.n):
+        COL.count('biglat_member_list_unusable')      # C03's business
+        return
+    pos = {id(c): k for k, c in enumerate(members)}
+    dkey = sorted(range(len(members)), key=lambda k: members[k].dindex)
+
+    def judge(kind, up, seeds, items):
+        COL.count('judged_' + kind)
+        COL.count('judged_biglat_traversals')
+        sm = [masks[k] for k in seeds]
+        if up:
+            want = [k for k in range(len(members)) if any(s & masks[k] == s for s in sm)]
+        else:
+            want = [k for k in dkey if any(masks[k] & s == masks[k] for s in sm)]
+        got = [pos.get(id(c)) for c in items]
+        if got != want:
+            mech = f'{kind}:not-exactly-the-{"filter" if up else "ideal"}' if sorted(map(str, got)) != sorted(map(str, want)) \
+                else f'{kind}:not-in-rank-order'
+            COL.violation(kind, mech, {'n': len(want), 'head': want[:8]}, {'n': len(got), 'head': got[:8]},
+                          {'seeds': seeds, 'biglat': case['fam']})
+    n = len(members)
+    plan = [('upset', True, [0]), ('downset', False, [n - 1]), ('upset', True, [rng.randrange(n)]),
+            ('downset', False, [rng.randrange(n)]), ('upset', True, [1]), ('downset', False, [n - 2])]
+    for kind, up, seeds in plan:
+        c = members[seeds[0]]
+        r = call(list, c.upset() if up else c.downset())
+        if r is RAISED:
+            COL.violation(kind, f'{kind}:raised', 'members', 'exception', {'biglat': case['fam']})
+        else:
+            judge(kind, up, seeds, r)
+    for kind, up in (('upset_union', True), ('downset_union', False)):
+        seeds = [rng.randrange(n) for _ in range(4)] + ([0, 1] if up else [n - 1, n - 2])
+        r = call(list, (lat.upset_union if up else lat.downset_union)([members[k] for k in seeds]))
+        if r is RAISED:
+            COL.violation(kind, f'{kind}:raised', 'members', 'exception', {'biglat': case['fam']})
+        else:
+            judge(kind, up, seeds, r)
+
+
 def run_case(concepts, case, spec):
+    if case.get('fam', '').startswith('BIGLAT'):
+        return run_biglat(concepts, case, spec)
     rng = common.rng_for(case, spec)
     ctx = common.build_or_skip(concepts, case)
     if ctx is None:
